@@ -1,4 +1,5 @@
 import MxModel.Props.C03
+import MxModel.Props.C02
 import MxModel.Proofs.StructMechCor
 /-!
 # C13 – deletion is complete (structural part)
@@ -10,8 +11,18 @@ longer contains it) – removes the derived copies that have no other definer, a
 that have one.  That modelx's incremental maintenance agrees with derivation from scratch is
 C03's correspondence and, for the mechanism model, the theorem `C03.mech_refines_derivation`; its
 consequences for deletion are below (`no_orphan_derived`, `deleted_member_not_defined`,
-`deleted_space_leaves_no_trace`).  That old handles raise and that no value computed from a deleted
-object survives is decided by the implementation-only oracle of this check.
+`deleted_space_leaves_no_trace`).  That old handles raise is decided by the implementation-only
+oracle of this check.
+
+**Value layer** (last section; mechanism model `Exec/Mech.lean`, proofs in
+`Proofs/ExecCertCellsDel.lean`): a cells that does not exist holds nothing and has no node in either
+graph – in every reachable state (`reachable_dead_cells_have_nothing`) and right after its deletion
+(`deleted_cells_holds_nothing`); no element that depended on it, directly or through other elements,
+holds a value after the deletion (`deleted_cells_dependents_hold_nothing`); everything that is not
+a descendant of a seed of the deletion keeps its value and its input mark
+(`delete_keeps_independent_values`), and the bound is exact (`delete_clears_exactly`).  `St.delCell`
+is tied to `SpaceManager.del_cells` by the value-layer correspondence of C02's check (values, trace
+graph, reference graph after every operation).
 -/
 namespace MxModel.C13
 open MxModel.C3 MxModel.Struct
@@ -127,5 +138,156 @@ example : (St.run [] {} (delOps ++ [.delSpace ["A"]])).mem .cells ["D"] "f"
     = some { derived := true, payload := 2 } := by decide
 
 end mechanism
+
+/-! ## Value layer: no value, no graph node of a deleted cells; dependents cleared; the rest kept -/
+section values
+open MxModel.Exec
+
+/-- **A cells that does not exist has nothing** – in ANY state with the certificate invariant: no
+element of it is held or marked as input, no node of it (element or object node) is in the trace
+graph, no edge touches one, no reference-graph edge ends in one of its elements. -/
+theorem dead_cells_have_nothing (env : Env) (lt : Node → Node → Prop) (s : Exec.St) (h : CI env lt s)
+    (c : CellId) (hd : env.alive c = false) :
+    (∀ n : Node, n.1 = c → lookup s.data n = none ∧ n ∉ s.inputs) ∧
+    (∀ x ∈ s.gn, x.cell ≠ c) ∧
+    (∀ a b, (a, b) ∈ s.ge → a.cell ≠ c ∧ b.cell ≠ c) ∧
+    (∀ e ∈ s.rg, e.2.1 ≠ c) :=
+  dead_has_nothing h c hd
+
+/-- …hence in every state reachable by evaluations, value / reference / formula edits and
+deletions / creations of cells (the regime of `C02.reachable_ci`). -/
+theorem reachable_dead_cells_have_nothing (lt : Node → Node → Prop) (ho : StrictOrder lt) (env0 : Env)
+    (hw0 : C02.WF env0 lt) (ops : List C02.Op) (hadm : C02.Admissible lt (env0, {}) ops) (c : CellId)
+    (hd : (C02.run (env0, {}) ops).1.alive c = false) :
+    (∀ n : Node, n.1 = c → lookup (C02.run (env0, {}) ops).2.data n = none) ∧
+    (∀ x ∈ (C02.run (env0, {}) ops).2.gn, x.cell ≠ c) ∧
+    (∀ e ∈ (C02.run (env0, {}) ops).2.rg, e.2.1 ≠ c) :=
+  have := dead_has_nothing (C02.reachable_ci lt ho env0 hw0 ops hadm).1 c hd
+  ⟨fun n hn => (this.1 n hn).1, this.2.1, this.2.2.2⟩
+
+/-- **Right after `del space.c`** (`St.delCell`) nothing of `c` is left: no value, no input mark,
+no node, no edge, no reference-graph edge into it. -/
+theorem deleted_cells_holds_nothing (env : Env) (lt : Node → Node → Prop) (s : Exec.St) (h : CI env lt s)
+    (c : CellId) :
+    (∀ n : Node, n.1 = c → lookup (s.delCell env c).data n = none ∧ n ∉ (s.delCell env c).inputs) ∧
+    (∀ x ∈ (s.delCell env c).gn, x.cell ≠ c) ∧
+    (∀ a b, (a, b) ∈ (s.delCell env c).ge → a.cell ≠ c ∧ b.cell ≠ c) ∧
+    (∀ e ∈ (s.delCell env c).rg, e.2.1 ≠ c) := by
+  have h' : CI (env.withAlive c false) lt (s.delCell env c) :=
+    delCell_ci h (C02.batchEdit_withAlive env c false) (fun c' _ hne => by simp [Env.withAlive, hne])
+  exact dead_has_nothing h' c (by simp [Env.withAlive])
+
+/-- **No element that depended on the deleted cells holds a value** – transitively: every
+descendant in the trace graph of a node of `c` (an element, or the object node of an uncached `c`)
+is gone; read off the certificates: an element whose formula called an element of `c`, directly
+or inside an uncached callee, is gone. -/
+theorem deleted_cells_dependents_hold_nothing (env : Env) (lt : Node → Node → Prop) (s : Exec.St)
+    (h : CI env lt s) (c : CellId) :
+    (∀ a y, a ∈ s.gn → a.cell = c → Reach s.ge a y →
+      y ∉ (s.delCell env c).gn ∧ ∀ m, y = .elem m → lookup (s.delCell env c).data m = none ∧
+        m ∉ (s.delCell env c).inputs) ∧
+    (∀ n v tr, Cert env s n v tr → ∀ m : Node, m.1 = c →
+      ((∃ w, FEv.call m w ∈ flat n.1 tr) ∨ FEv.ucall m ∈ flat n.1 tr) →
+      lookup (s.delCell env c).data n = none) :=
+  ⟨fun a y ha hac hr => delCell_descendants s h.gi.edgeOK c a y ha hac hr,
+   fun n v tr hcert m hm hev => delCell_callers h c n v tr hcert m hm hev⟩
+
+/-- **Everything else keeps its value.**  The seeds of the deletion of `c` (`DelSeed`): the nodes
+of `c`; the COMPUTED elements of the cached cells of `c`'s space (namespace notification – their
+inputs are no seeds); the nodes of the uncached cells of `c`'s space.  An element that is not a
+descendant of a seed – i.e. neither of `c`, nor computed from `c`, nor a computed element of `c`'s
+space or computed from one – has the same value and the same input mark after the deletion. -/
+theorem delete_keeps_independent_values (env : Env) (lt : Node → Node → Prop) (s : Exec.St)
+    (h : CI env lt s) (c : CellId) (m : Node)
+    (hm : ∀ a, DelSeed env s c a → ¬ Reach s.ge a (.elem m)) :
+    lookup (s.delCell env c).data m = lookup s.data m ∧ (m ∈ (s.delCell env c).inputs ↔ m ∈ s.inputs) :=
+  (delCell_kept s h.gi.edgeOK c (.elem m) hm).data m rfl
+
+/-- **…and exactly that survives**: an element is cleared iff it is a descendant of a seed. -/
+theorem delete_clears_exactly (env : Env) (lt : Node → Node → Prop) (s : Exec.St) (h : CI env lt s)
+    (c : CellId) (m : Node) :
+    ((∃ a, DelSeed env s c a ∧ Reach s.ge a (.elem m)) →
+      lookup (s.delCell env c).data m = none ∧ m ∉ (s.delCell env c).inputs) ∧
+    ((¬ ∃ a, DelSeed env s c a ∧ Reach s.ge a (.elem m)) →
+      lookup (s.delCell env c).data m = lookup s.data m ∧ (m ∈ (s.delCell env c).inputs ↔ m ∈ s.inputs)) :=
+  delCell_exact h c m
+
+/-! Non-vacuity (program of `C02.xEnv`: `c0`, uncached `c1`, `c3` in space 0, `c2` in space 1; `c3 → c2 →
+c1 → c0`).  After evaluating `c3()`, `c0(5)` and assigning `c2(7) := 1`, `c0(9) := 100`: deleting `c2`
+(space 1) clears `c2(1)` and its dependent `c3()`, keeps the elements of `c0` – inputs and computed –
+and the state has no node of `c2`; deleting `c0` (space 0) clears every element of `c0`, the input
+`c0(9)` included, and – through the notification of space 0 – `c3()`, keeps the input `c2(7)` of the
+other space and drops `c2(1)`, which was computed from `c0` through the uncached `c1`. -/
+def vState : Env × Exec.St :=
+  C02.run (C02.xEnv, {}) [.eval (3, []), .eval (0, [.int 5]), .setValue (2, [.int 7]) (.int 1),
+    .setValue (0, [.int 9]) (.int 100)]
+
+example : (vState.2.data.map (·.1)) =
+      [(0, [.int 9]), (2, [.int 7]), (0, [.int 5]), (3, []), (2, [.int 1]), (0, [.int 1])] ∧
+    ((vState.2.delCell vState.1 2).data.map (·.1)) = [(0, [.int 9]), (0, [.int 5]), (0, [.int 1])] ∧
+    ((vState.2.delCell vState.1 2).gn.all (fun x => x.cell != 2)) = true ∧
+    ((vState.2.delCell vState.1 0).data.map (·.1)) = [(2, [.int 7])] ∧
+    (vState.2.delCell vState.1 0).inputs = [(2, [.int 7])] ∧
+    (vState.2.delCell vState.1 0).rg = [] := by
+  decide
+
+end values
+
+/-! ## Inheritance: which namespaces an edit of a member changes -/
+section inheritance
+open MxModel.SM
+
+/-- **An edit of a member of space `p` – `new_cells`, a new formula, `del_cells` / `del_ref` – changes
+the member tables, hence the namespaces, of `p` and of the sub spaces the mechanism walks only**
+(`SM.St.touched st p = p :: st.subs p`): every other space has literally the same cells and
+references, the spaces, the base relation and the model-level references are unchanged. -/
+theorem member_edit_changes_only_touched_spaces (kw : List String) (st st' : SM.St) (p : Path) (name : String)
+    (v : Nat) (a0 : Attr)
+    (hop : st.newCells kw p name v = some st' ∨ st.setFormula p name v = some st' ∨
+      st.delMember a0 p name = some st') :
+    SM.Frame st st' p ∧
+    (∀ a q n, st'.mem a q n ≠ st.mem a q n → q ∈ st.touched p) ∧
+    (∀ (ids : SM.Ids) q, SM.nsOf ids st' q ≠ SM.nsOf ids st q → q ∈ st.touched p) := by
+  have hf : SM.Frame st st' p := by
+    rcases hop with h | h | h
+    · exact newCells_frame kw st st' p name v h
+    · exact setFormula_frame st st' p name v h
+    · exact delMember_frame st st' a0 p name h
+  exact ⟨hf, fun a q n hne => hf.changed_mem a q n hne, fun ids q hne => nsOf_changed_in_touched ids hf q hne⟩
+
+/-- **…so the deletion of a cells that sub spaces inherit leaves no stale value in the sub spaces
+either**: the cells that go – the deleted one and its derived copies, `CL` – are cleared by
+`clear_obj`; the cells `L` are notified; every cells living in `p` or in a sub space of `p` is
+notified or cleared; those not cleared that hold an input still exist.  Then every value held
+afterwards is a denotation under the definitions resolved in the NEW namespaces. -/
+theorem deleted_member_leaves_no_stale_value_in_subs (se : Exec.SEnv) (ids : SM.Ids) (pathOf : Nat → Path)
+    (st st' : SM.St) (p : Path) (name : String) (hop : st.delMember .cells p name = some st')
+    (CL L : List Exec.CellId) (lt : Exec.Node → Exec.Node → Prop) (s : Exec.St)
+    (h : Exec.CI (SM.withStruct se ids pathOf st).toEnv lt s)
+    (hL : ∀ c, pathOf (se.home c) ∈ st.touched p → c ∈ L ∨ c ∈ CL)
+    (hinp : ∀ n ∈ s.inputs, pathOf (se.home n.1) ∈ st.touched p → n.1 ∉ CL →
+      (SM.withStruct se ids pathOf st').toEnv.alive n.1 = true) :
+    Exec.Good (SM.withStruct se ids pathOf st').toEnv
+      (Exec.inpOf ((CL.foldl Exec.St.clearObj s).notifyAll (SM.withStruct se ids pathOf st).toEnv L))
+      ((CL.foldl Exec.St.clearObj s).notifyAll (SM.withStruct se ids pathOf st).toEnv L) :=
+  (SM.mech_edit_cleared_ci se ids pathOf st st' p (delMember_frame st st' .cells p name hop) CL L h hL hinp).good
+
+/-! Non-vacuity: `A` defines `f`; `B(A)` and `D(B)` inherit it, `C` is unrelated.  `A.new_cells("g")`
+touches `A`, `B`, `D` – `g` becomes visible there – and nothing of `C`; `del A.f` likewise. -/
+def iOps : List SM.Op :=
+  [.newSpace [] "A" [], .newSpace [] "B" [["A"]], .newSpace [] "C" [], .newSpace [] "D" [["B"]],
+   .newCells ["A"] "f" 1, .newCells ["C"] "h" 2]
+
+def iIds : SM.Ids := ⟨fun q x => q.length * 100 + x.length, fun _ _ => 0, fun _ => 0⟩
+
+example : (SM.St.run [] {} iOps).touched ["A"] = [["A"], ["B"], ["D"]] ∧
+    (SM.nsOf iIds (SM.St.run [] {} (iOps ++ [.newCells ["A"] "g" 3])) ["D"] "g").isSome = true ∧
+    (SM.nsOf iIds (SM.St.run [] {} iOps) ["D"] "g").isSome = false ∧
+    (SM.nsOf iIds (SM.St.run [] {} (iOps ++ [.delCells ["A"] "f"])) ["D"] "f").isSome = false ∧
+    (SM.nsOf iIds (SM.St.run [] {} iOps) ["D"] "f").isSome = true ∧
+    (SM.St.run [] {} (iOps ++ [.newCells ["A"] "g" 3])).cont .cells ["C"] = (SM.St.run [] {} iOps).cont .cells ["C"] := by
+  decide
+
+end inheritance
 
 end MxModel.C13
